@@ -110,6 +110,7 @@ class Rule:
             and len(rhs.alts) == 1
             and len(rhs.alts[0].items) == 1
             and isinstance(rhs.alts[0].items[0].item, Group)
+            and not rhs.alts[0].action  # the rule's own action would be lost
         ):
             rhs = rhs.alts[0].items[0].item.rhs
         return rhs
